@@ -139,6 +139,8 @@ def run(chk: Check) -> None:
     aw = [n for n in ast.walk(we.node) if isinstance(n, ast.Await)]
     outs = esc.trace(we, aw[0]) if aw else []
     ok = bool(outs) and all(o.kind == 'contained' and o.container.sink == 'excepted-state' for o in outs)
+    from .c03 import failure_handlers_build_excepted
+    failure_handlers_build_excepted(chk, 'ESC-awaitable-failure')
     chk.ob('ESC-awaitable-failure', we, ok, 'that failure is first caught where it becomes the EXCEPTED state (' + ', '.join(sorted({repr(o.container) if o.container else o.root for o in outs})) + ')',
            kind='becomes-excepted')
     # child launch
